@@ -1,0 +1,137 @@
+//go:build verif
+
+// Contracts for package protectedmemory, read by /verif/gocv (comment-only; no code).
+package protectedmemory
+
+// assumed library contracts
+//@ extern core.Wipe
+//@   names buf
+//@   modifies buf[*]
+//@   ensures forall i int :: 0 <= i && i < len(buf) ==> buf[i] == 0
+//@ extern subtle.ConstantTimeCopy
+//@   names v, x, y
+//@   modifies x[*]
+
+// in-use accounting: cnt(c) is the value of a metrics counter
+//@ ghost field cnt(metrics.Counter) int
+//@ iface metrics.Counter.Inc
+//@   names n
+//@   modifies cnt(this)
+//@   ensures cnt(this) == old(cnt(this)) + n
+//@ iface metrics.Counter.Dec
+//@   names n
+//@   modifies cnt(this)
+//@   ensures cnt(this) == old(cnt(this)) - n
+//@ axiom [metrics-initialised] securememory.InUseCounter != nil && securememory.AllocCounter != nil && AllocTimer != nil && securememory.InUseCounter != securememory.AllocCounter && memcall.Default != nil
+
+// what a reader callback may rely on while it runs
+//@ funcspec secretAction
+//@   names b
+//@   requires [C11:bytes-readable-only-while-a-reader-runs] b != nil && mapped(arr(b)) && locked(arr(b)) && prot(arr(b)) == 1
+
+// ---- object invariant of a secret, under its lock ----
+//@ monitor (*secretInternal).rw
+//@   facet C11
+//@   cond c
+//@   guards closing, closed, accessCounter
+//@   monotone closing, closed
+//@   invariant [open-secret-is-mapped-and-locked] !this.closed ==> this.bytes != nil && len(this.bytes) >= 1 && mapped(arr(this.bytes)) && locked(arr(this.bytes)) && this.accessCounter >= 0
+//@   invariant [readable-while-readers] !this.closed && this.accessCounter > 0 ==> prot(arr(this.bytes)) == 1
+//@   invariant [closed-secret-has-no-memory] this.closed ==> this.bytes == nil && this.closing
+//@   invariant [wired] this.rw != nil && this.c != nil && this.mc != nil
+//@ immutable (secretInternal).rw, (secretInternal).c, (secretInternal).mc
+
+//@ spec fn wfS(s *secretInternal) bool = s != nil && s.rw != nil && s.c != nil && s.mc != nil && valid(s.rw)
+
+//@ func newSecret
+//@   facet C11, C12
+//@   safety C12
+//@   opt no-frame
+//@   requires mc != nil
+//@   ensures [C12:secret-iff-no-error] (err == nil) == (result != nil)
+//@   ensures [C11:locked-before-any-secret-byte] err == nil ==> result.secretInternal != nil && fresh(result.secretInternal) && wfS(result.secretInternal) && len(result.secretInternal.bytes) == size && mapped(arr(result.secretInternal.bytes)) && locked(arr(result.secretInternal.bytes)) && prot(arr(result.secretInternal.bytes)) == 2 && allzero(result.secretInternal.bytes) && fresh(result.secretInternal.bytes) && !result.secretInternal.closed && !result.secretInternal.closing && result.secretInternal.accessCounter == 0 && result.secretInternal.rw != nil && *result.secretInternal.rw == 0 && result.secretInternal.mc == mc
+//@   ensures [C12:failed-creation-leaves-nothing-mapped] err != nil && ret(Free, 1, 0) == nil ==> (forall p ref :: mapped(p) ==> old(mapped(p)))
+//@   ensures [C12:failed-creation-leaves-nothing-locked] err != nil ==> (forall p ref :: locked(p) ==> old(locked(p)))
+
+//@ func (*SecretFactory).New
+//@   facet C10, C11, C12
+//@   safety C12
+//@   opt no-frame
+//@   requires f != nil
+//@   ensures [C10:source-wiped] forall i int :: 0 <= i && i < len(b) ==> b[i] == 0
+//@   ensures [C12:secret-iff-no-error] (err == nil) == (result != nil)
+//@   ensures [C11:idle-secret-is-inaccessible] err == nil ==> istype(result, *secret) && dyn(result, *secret).secretInternal != nil && mapped(arr(dyn(result, *secret).secretInternal.bytes)) && locked(arr(dyn(result, *secret).secretInternal.bytes)) && prot(arr(dyn(result, *secret).secretInternal.bytes)) == 0
+//@   ensures [C12:in-use-counted-only-on-success] cnt(securememory.InUseCounter) == old(cnt(securememory.InUseCounter)) + (if err == nil then 1 else 0)
+
+//@ func (*SecretFactory).createRandom
+//@   facet C11, C12
+//@   safety C12
+//@   opt no-frame
+//@   param readFunc randSource
+//@   requires f != nil && readFunc != nil
+//@   ensures [C12:secret-iff-no-error] (err == nil) == (result != nil)
+//@   ensures [C11:idle-secret-is-inaccessible] err == nil ==> istype(result, *secret) && dyn(result, *secret).secretInternal != nil && mapped(arr(dyn(result, *secret).secretInternal.bytes)) && locked(arr(dyn(result, *secret).secretInternal.bytes)) && prot(arr(dyn(result, *secret).secretInternal.bytes)) == 0
+//@   ensures [C12:in-use-counted-only-on-success] cnt(securememory.InUseCounter) == old(cnt(securememory.InUseCounter)) + (if err == nil then 1 else 0)
+
+// the random source may fail; it writes only into the buffer it is given
+//@ funcspec randSource
+//@   names b
+//@   modifies b[*]
+
+//@ func (*secretInternal).access
+//@   facet C11, C12
+//@   safety C12
+//@   opt no-frame
+//@   opt old-at-acquire
+//@   requires wfS(s) && *s.rw == 0
+//@   ensures [C11:lock-released] *s.rw == 0
+//@   ensures [C11:closed-secret-refuses-access] old(s.closing || s.closed) ==> err != nil
+//@   ensures [C12:failed-access-changes-nothing] err != nil ==> s.accessCounter == old(s.accessCounter) && prot(arr(s.bytes)) == old(prot(arr(s.bytes))) && s.closed == old(s.closed) && s.closing == old(s.closing)
+//@   ensures [C11:reader-sees-read-only-memory] err == nil ==> s.accessCounter == old(s.accessCounter) + 1 && prot(arr(s.bytes)) == 1 && !s.closed && mapped(arr(s.bytes)) && locked(arr(s.bytes))
+
+//@ func (*secretInternal).release
+//@   facet C11, C12
+//@   safety C12
+//@   opt no-frame
+//@   opt old-at-acquire
+//@   requires wfS(s) && *s.rw == 0
+//@   ensures [C11:lock-released] *s.rw == 0
+//@   ensures [C11:reader-count-goes-down] s.accessCounter == old(s.accessCounter) - 1
+//@   ensures [C11:last-reader-restores-no-access] err == nil && s.accessCounter == 0 && !old(s.closed) ==> prot(arr(s.bytes)) == 0
+
+//@ func (*secretInternal).close
+//@   facet C11, C12
+//@   safety C12
+//@   opt no-frame
+//@   requires wfS(s) && *s.rw == 2 && !s.closed && s.accessCounter == 0 && s.bytes != nil && mapped(arr(s.bytes)) && locked(arr(s.bytes))
+//@   ensures [C11:close-wipes-unlocks-and-unmaps] err == nil ==> s.closed && s.bytes == nil && !mapped(arr(old(s.bytes))) && !locked(arr(old(s.bytes)))
+//@   ensures [C12:failed-close-can-be-retried] err != nil ==> !s.closed && s.bytes == old(s.bytes) && mapped(arr(s.bytes)) && s.accessCounter == 0
+//@   ensures [C12:in-use-released-only-when-closed] cnt(securememory.InUseCounter) == old(cnt(securememory.InUseCounter)) - (if err == nil then 1 else 0)
+
+//@ func (*secretInternal).Close
+//@   facet C11, C12
+//@   safety C12
+//@   opt no-frame
+//@   opt old-at-acquire
+//@   requires wfS(s) && *s.rw == 0
+//@   loop 1 invariant [C11:closing-under-lock] *s.rw == 2 && s.closing && (!s.closed ==> s.bytes != nil && len(s.bytes) >= 1 && mapped(arr(s.bytes)) && locked(arr(s.bytes)) && s.accessCounter >= 0) && (!s.closed && s.accessCounter > 0 ==> prot(arr(s.bytes)) == 1) && (s.closed ==> s.bytes == nil)
+//@   ensures [C11:lock-released] *s.rw == 0
+//@   ensures [C11,C12:close-succeeds-only-when-closed] err == nil ==> s.closed
+//@   ensures [C12:failed-close-can-be-retried] err != nil ==> !s.closed && s.bytes != nil && mapped(arr(s.bytes))
+//@   ensures [C11:later-access-refused] s.closing
+
+//@ func (*secret).WithBytesFunc
+//@   facet C11, C12
+//@   safety C12
+//@   opt no-frame
+//@   param action secretAction
+//@   requires s != nil && wfS(s.secretInternal) && *s.secretInternal.rw == 0 && action != nil
+//@   ensures [C11:lock-released] *s.secretInternal.rw == 0
+
+//@ func (*secret).WithBytes
+//@   facet C11, C12
+//@   safety C12
+//@   opt no-frame
+//@   param action secretAction
+//@   requires s != nil && wfS(s.secretInternal) && *s.secretInternal.rw == 0 && action != nil
+//@   ensures [C11:lock-released] *s.secretInternal.rw == 0
